@@ -337,7 +337,7 @@ func engineCLISearch(ctx *Ctx) {
 					switch v {
 					case "violated":
 						ctx.R.Violate(vlib.Violation{Property: "C17", Clause: "printed-differs-from-engine", Path: path,
-							Detail:  "printed results are not the engine's results in rank order: " + why,
+							Detail: "printed results are not the engine's results in rank order: " + why,
 							Witness: map[string]interface{}{"case": cs, "engine": refs[0], "printed": printed, "printed_items_not_in_database": unmatched,
 								"engine_entries": func() []string {
 									var o []string
